@@ -105,10 +105,19 @@ def judge(ctx, tp):
             ctx.oblig(tag, len(msgs))
         ctx.oblig("X02.g.late", sum(1 for e in t if e["op"] in ("At", "Add", "Drop", "Msg")))
         ctx.oblig("X02.r", sum(1 for e in t if e["op"] == "RsAdd"))
-        for k, e in enumerate(msgs):
-            if k > 0 and len(e["added"]) == t[0]["L"]: big["added_at_limit"] += 1
-            if k > 0 and len(e["dropped"]) == t[0]["L"]: big["dropped_at_limit"] += 1
-            if k == 0 and len(e["added"]) > t[0]["L"]: big["first_message_over_limit"] += 1
+        # limit situations by the history, not by what the code sent: pending entries >= L at a later flush
+        pa, pd, k, L = set(), set(), 0, t[0]["L"]
+        for e in t:
+            if e["op"] == "Start":
+                pa = set(e["initial"]) - {t[0]["self"]}
+                pd = set(e["recent"]) - set(e["initial"])
+            elif e["op"] == "Add": pa.add(e["a"]); pd.discard(e["a"])
+            elif e["op"] == "Drop": pd.add(e["a"]); pa.discard(e["a"])
+            elif e["op"] == "Msg":
+                if k > 0 and len(pa) >= L: big["added_at_limit"] += 1
+                if k > 0 and len(pd) >= L: big["dropped_at_limit"] += 1
+                if k == 0 and len(pa) > L: big["first_message_over_limit"] += 1
+                pa -= set(e["added"]); pd -= set(e["dropped"]); k += 1
         big["recent_list_full"] += sum(1 for e in t if e["op"] == "RsAdd" and len(e["list"]) == t[0]["R"])
     ctx.extra["limit_situations_exercised"] = big
     if min(big.values()) == 0:
